@@ -19,7 +19,9 @@ RULE = ("malformed stream for each codec: random bytes (0-300), truncation at ev
         "block to all 256 values; table / values offsets to boundary values), extensions, decoding with a "
         "different shape / block / dtype / channel count; plus the unmodified valid encodings; sessions: one "
         "decoder object per codec decodes A, a rejected buffer, B (same shape), A again and every array handed "
-        "out earlier is re-checked. "
+        "out earlier is re-checked; valid files of an independent writer with other layouts (values before the "
+        "table, shuffled / padded tables, wider bit widths, gaps, reversed channel order, table offsets using "
+        "bits 20..23) must decode. "
         "non-trivial = buffer derived from a valid encoding with >= 2 blocks or channels (cseg), any "
         "non-empty buffer (raw), any buffer Pillow can open (jpeg)")
 
@@ -503,6 +505,183 @@ def run_regressions(R):
         R.violation("jpeg decoder raised something other than InvalidFormatError", case, {"impl": impl})
 
 
+# ------------------------------------------------------------------ valid files of other writers
+
+def foreign_encode(rng, dt, C, shape, blk, values, style):
+    """A specification-conforming compressed_segmentation writer that shares nothing with the
+    package's encoder and lays the file out differently: encoded values BEFORE the lookup table (as
+    Neuroglancer's own compressor does) or after it, tables in arbitrary order and possibly with unused
+    entries or more bits than necessary, 0-bit blocks whose (unused) values offset is 0 / the table
+    offset / anything, gaps between the pieces, channels stored in reverse order.  [values] is in
+    (c,z,y,x) order.  Returns the bytes."""
+    X, Y, Z = shape
+    bx, by, bz = blk
+    gx, gy, gz = -(-X // bx), -(-Y // by), -(-Z // bz)
+    nblk = gx * gy * gz
+    wide = dt == "uint64"
+
+    def entry_words(v):
+        return [v & 0xFFFFFFFF, v >> 32] if wide else [v]
+    chans = []
+    for c in range(C):
+        body = [rng.getrandbits(32) for _ in range(rng.choice([0, 0, 1, 3]))] if style["gaps"] else []
+        header = []
+        shared = {}
+        for zb in range(gz):
+            for yb in range(gy):
+                for xb in range(gx):
+                    vals = []
+                    for dz in range(bz):
+                        for dy in range(by):
+                            for dx in range(bx):
+                                z, y, x = zb * bz + dz, yb * by + dy, xb * bx + dx
+                                vals.append(values[((c * Z + z) * Y + y) * X + x]
+                                            if z < Z and y < Y and x < X else None)
+                    labels = sorted({v for v in vals if v is not None})
+                    if style["table_order"] == "shuffled":
+                        rng.shuffle(labels)
+                    elif style["table_order"] == "descending":
+                        labels.reverse()
+                    if style["extra_entries"] and rng.random() < 0.5:
+                        labels += [rng.getrandbits(64 if wide else 32) for _ in range(rng.choice([1, 2]))]
+                    need = next(b for b in (0, 1, 2, 4, 8, 16, 32) if 2 ** b >= len(labels))
+                    bits = need
+                    if style["wider_bits"] and rng.random() < 0.4:
+                        bits = rng.choice([b for b in (1, 2, 4, 8, 16, 32) if b >= need])
+                    pos = {v: i for i, v in enumerate(labels)}
+                    idx = [pos[v] if v is not None else rng.randrange(min(len(labels), 2 ** bits)) for v in vals]
+                    words = []
+                    if bits:
+                        vpw = 32 // bits
+                        for k in range(0, len(idx), vpw):
+                            w = 0
+                            for sft, i in enumerate(idx[k:k + vpw]):
+                                w |= i << (sft * bits)
+                            words.append(w)
+                    tw = [w for v in labels for w in entry_words(v)]
+                    base = 2 * nblk
+
+                    def put(ws):
+                        if style["gaps"] and rng.random() < 0.3:
+                            body.extend(rng.getrandbits(32) for _ in range(rng.choice([1, 2])))
+                        off = base + len(body)
+                        body.extend(ws)
+                        return off
+                    key = tuple(tw)
+                    if style["values_first"]:
+                        vo = put(words)
+                        lo = shared[key] if (key in shared and style["share"]) else put(tw)
+                    else:
+                        lo = shared[key] if (key in shared and style["share"]) else put(tw)
+                        vo = put(words)
+                    shared[key] = lo
+                    if bits == 0:
+                        vo = rng.choice([0, lo, base + len(body), rng.randrange(base + len(body) + 1), 2 ** 32 - 1])
+                    header += [lo | (bits << 24), vo]
+        chans.append(header + body)
+    order = list(range(C))
+    if style["reverse_channels"]:
+        order.reverse()
+    pad0 = [rng.getrandbits(32) for _ in range(rng.choice([0, 2]))] if style["gaps"] else []
+    offs = [0] * C
+    data = list(pad0)
+    for c in order:
+        offs[c] = C + len(data)
+        data += chans[c]
+    return b"".join(struct.pack("<I", w) for w in offs + data)
+
+
+FOREIGN_STYLES = [
+    dict(values_first=True, table_order="sorted", extra_entries=False, wider_bits=False, gaps=False,
+         share=False, reverse_channels=False),                      # Neuroglancer's compressor
+    dict(values_first=True, table_order="sorted", extra_entries=False, wider_bits=False, gaps=False,
+         share=True, reverse_channels=False),
+    dict(values_first=False, table_order="shuffled", extra_entries=True, wider_bits=True, gaps=True,
+         share=True, reverse_channels=True),
+    dict(values_first=True, table_order="descending", extra_entries=True, wider_bits=True, gaps=True,
+         share=False, reverse_channels=True),
+    dict(values_first=False, table_order="sorted", extra_entries=False, wider_bits=False, gaps=False,
+         share=True, reverse_channels=False),                       # the package's own layout
+]
+
+
+def far_table_file(dt, lut_words, label, values_words=None, C=1):
+    """A legal single-voxel file (chunk 1x1x1, block 1x1x1, 0-bit block) whose lookup table sits
+    [lut_words] 32-bit words into the channel, after a long run of padding."""
+    wide = dt == "uint64"
+    base = C
+    total = base + lut_words + (2 if wide else 1)
+    buf = bytearray(4 * total)
+    for c in range(C):
+        struct.pack_into("<I", buf, 4 * c, base)
+    struct.pack_into("<II", buf, 4 * base, lut_words, lut_words if values_words is None else values_words)
+    struct.pack_into("<Q" if wide else "<I", buf, 4 * (base + lut_words), label)
+    return bytes(buf)
+
+
+def run_foreign(R, quick):
+    """Valid data must never be rejected, whoever wrote it."""
+    import numpy as np
+    rng = R.rng
+    items = []
+    k = 0
+    for rep in range(10 if quick else 120):
+        for style in FOREIGN_STYLES:            # stratified: every layout with both label types
+            dt = ("uint32", "uint64")[(k + rep) % 2]
+            k += 1
+            C = rng.choice([1, 1, 2, 3])
+            shape = [rng.randint(1, 5) for _ in range(3)]
+            blk = [rng.choice([1, 2, 3, 4]) for _ in range(3)]
+            vals = c02.gen_values(rng, dt, C, shape, blk, rng.choice([1, 2, 3, 5, 17]))
+            buf = foreign_encode(rng, dt, C, shape, blk, vals, style)
+            items.append(("foreign:" + ("values_first" if style["values_first"] else "table_first"),
+                          dt, C, shape, blk, vals, buf, True))
+    # table offsets that need bits 20..23 of the 24-bit field (bit 20 also through the model)
+    for j, (lw, with_model) in enumerate([(2 ** 20 + 3, True), (2 ** 20, False), (2 ** 21 + 1, False),
+                                          (2 ** 22 + 2 ** 20, False), (2 ** 23 + 5, False), (2 ** 24 - 3, False)]):
+        dt = ("uint64", "uint32")[j % 2]
+        label = (2 ** 53 + 1 + j) if dt == "uint64" else (2 ** 32 - 1 - j)
+        items.append(("foreign:far_table", dt, 1, [1, 1, 1], [1, 1, 1], [label],
+                      far_table_file(dt, lw, label), with_model))
+    reqs = []
+    for kind, dt, C, shape, blk, vals, buf, with_model in items:
+        if with_model:
+            reqs.append(c02.spec_request(dt, C, blk, shape, buf))
+            reqs.append(c02.dec_request(dt, C, blk, shape, buf))
+    rep = iter(R.model.batch(reqs))
+    for kind, dt, C, shape, blk, vals, buf, with_model in items:
+        X, Y, Z = shape
+        a = c02.arr_of(dt, C, shape, vals)
+        want = c02.canon_arr(a)
+        case = {"codec": "cseg", "kind": kind, "dt": dt, "C": C, "shape": shape, "blk": blk,
+                "buf": buf if len(buf) <= 4096 else "far_table_file(%r, %d, %d)" % (dt, (len(buf) // 4) - 1 - (2 if dt == "uint64" else 1), vals[0]),
+                "values": vals if len(vals) <= 64 else None}
+        R.case(case, nontrivial=True)
+        R.count(kind)
+        # harness self-check: the file really is what the format says (independent reader)
+        try:
+            ok = c02.spec_decode_py(buf, dt, C, shape, blk) == vals
+        except ValueError:
+            ok = False
+        if not ok:
+            R.violation("harness self-check: the foreign writer produced a file its own format reader rejects",
+                        case, {})
+            continue
+        enc = c02.make_encoder(dt, C, blk)
+        impl = c02.impl_arr(outcome_of(lambda: enc.decode(buf, shape)))
+        if impl != ["ok", want]:
+            R.violation("valid compressed_segmentation data written by another writer is rejected or decoded "
+                        "wrongly", case, {"impl": c02._short(impl)})
+        if with_model:
+            wf, sd = next(rep)
+            if str(wf) != "true" or not isinstance(sd, (bytes, bytearray)) or bytes(sd) != want[2]:
+                R.violation("harness self-check: extracted validator / specification decoder disagree with the "
+                            "foreign writer", case, {"well_formed": str(wf)})
+            mod = c02.model_arr(next(rep), dt)
+            if impl != mod:
+                R.disagree("cseg decode vs cseg_decode (foreign layout)", case, c02._short(impl), c02._short(mod))
+
+
 def run_sessions(R, quick):
     """ONE decoder object per codec decodes valid chunk A, a rejected buffer, valid chunk B of the
     same shape, A again: every array handed out earlier must still hold its chunk afterwards."""
@@ -560,6 +739,7 @@ def run(R):
     quick = R.tier == "quick"
     run_regressions(R)
     run_sessions(R, quick)
+    run_foreign(R, quick)
     run_cseg(R, quick)
     run_raw(R, quick)
     run_jpeg(R, quick)
@@ -632,7 +812,18 @@ def replay(R, payload):
         return _replay_session(case)
     if "buf" not in case:
         return True
+    if isinstance(case["buf"], str) and case["buf"].startswith("far_table_file("):
+        dt_, lw_, label_ = eval(case["buf"][len("far_table_file"):])      # written by run_foreign only
+        buf = far_table_file(dt_, lw_, label_)
+        enc = c02.make_encoder(case["dt"], case["C"], case["blk"])
+        impl = c02.impl_arr(outcome_of(lambda: enc.decode(buf, case["shape"])))
+        return impl != ["ok", c02.canon_arr(c02.arr_of(case["dt"], 1, [1, 1, 1], [label_]))]
     buf = _bytes(case["buf"])
+    if str(case.get("kind", "")).startswith("foreign") and case.get("values"):
+        enc = c02.make_encoder(case["dt"], case["C"], case["blk"])
+        impl = c02.impl_arr(outcome_of(lambda: enc.decode(buf, case["shape"])))
+        want = c02.canon_arr(c02.arr_of(case["dt"], case["C"], case["shape"], case["values"]))
+        return impl != ["ok", want]
     if payload.get("kind") == "broken-correspondence-or-proof":
         return _replay_correspondence(R, case, buf)
     shape = case["shape"]
